@@ -150,40 +150,49 @@ theorem c16_routing_tied : RoutingTied := by
 example : (SJ.Gen.routeOwned.lookup "deserialize_char") = some "->deserialize_string" := by rfl
 example : (SJ.Gen.routeRef.lookup "deserialize_char") = some "->deserialize_str" := by rfl
 
-/-- **C16, the text leg (`_partial`: everything but floats).** For every schema of the fragment `agreeFrag2` — bool, the twelve
-    integer targets (8–128 bit), char, `String`, byte buffers, unit / unit structs, `Option`, newtype structs, `Vec`, fixed-length
-    tuples, maps with EVERY key kind (string, the twelve integer widths, bool, char, unit-variant enums; arbitrary key
-    strings, accepted or not), structs (with and without `deny_unknown_fields`; from arrays and from objects, unknown / duplicate /
-    missing fields as derive's visitor treats them), enums (unit, newtype, non-empty tuple and struct variants), `IgnoredAny`
-    and `Value` (at any nesting depth: the machine on the padding frames of the typed containers) — and every value without
-    floats that a non-`arbitrary_precision` `Value` of this build can hold (`shapeOK`), within the parser's depth budget and
-    outside the statement's exclusion "a struct variant written as an array" (`hasArrayPayload`; the exclusion "zero-length
-    tuple variant" is part of the fragment): `to_string(v)` succeeds and `from_str::<T>` of that text (typed deserializer +
-    `end()`, any source) returns exactly what `from_value::<T>(v)` returns, and fails whenever it fails — matching and
-    mismatching values alike. Together with `c16_owned_borrowed` this is the three-way statement on the fragment.
-    Missing (named): `f64` targets and float values (the link between the typed number scanner and `ryu`'s text under
-    `FloatsRoundTrip`; a float under a 128-bit integer target is read as its integer prefix and rejected only by the
-    caller, so the per-target invariant of the proof does not hold there), `f32` (outside the claim), `arbitrary_precision`
-    (literal-backed numbers). The text is the one the serializer model writes (`c03_value`). -/
+/-- **C16, the text leg (`_partial`: everything of the claim but a float under a 128-bit integer target, and
+    `arbitrary_precision`).** For every schema of the fragment `agreeFrag2` — bool, the twelve integer targets (8–128 bit),
+    `f64`, char, `String`, byte buffers, unit / unit structs, `Option`, newtype structs, `Vec`, fixed-length tuples, maps with
+    EVERY key kind (string, the twelve integer widths, bool, char, unit-variant enums; arbitrary key strings, accepted or not),
+    structs (with and without `deny_unknown_fields`; from arrays and from objects, unknown / duplicate / missing fields as
+    derive's visitor treats them), enums (unit, newtype, non-empty tuple and struct variants), `IgnoredAny` and `Value` (at any
+    nesting depth: the machine on the padding frames of the typed containers) — i.e. every schema of the universe without
+    `f32` targets and zero-length tuple variants (both outside the claim) — and every value that a
+    non-`arbitrary_precision` `Value` of this build can hold (`shapeOK`: floats finite) whose floats the printer / parser pair
+    returns (`hF` — C04's named hypothesis `FloatsRoundTrip`, as the statement says: "comparisons involving f64 assume
+    float_roundtrip or short float literals"; it is discharged from `RyuShortest` under `float_roundtrip`:
+    `c16_text_agrees_fr`, and is vacuous without floats: `c16_text_agrees_nofloat`), within the parser's depth budget and
+    outside the statement's exclusion "a struct variant written as an array" (`hasArrayPayload`): `to_string(v)` succeeds and
+    `from_str::<T>` of that text (typed deserializer + `end()`, any source) returns exactly what `from_value::<T>(v)`
+    returns, and fails whenever it fails — matching and mismatching values alike (an integer into `f64`: `as f64` on both
+    sides; a float into an integer, bool, string, container … target: refused on both sides). Together with
+    `c16_owned_borrowed` this is the three-way statement.
+    Missing (named): a float value in a schema that has a 128-bit integer target (`h128`: `scan_integer128` takes the integer
+    prefix of `1.5` and leaves the rejection to the caller — trailing characters / expected `,` or `]` —, so the
+    per-target invariant `Agree1` of the proof fails there although all three paths reject: the harness finds
+    `ERR|ERR|ERR` on every such case), and `arbitrary_precision` (literal-backed numbers). The text is the one the serializer
+    model writes (`c03_value`). -/
 theorem c16_text_agrees_partial (mcfg : Model.Machine.Cfg) (hap : mcfg.ap = false) (src : Model.Machine.Src)
     (ext : Spec.Program.Ext) (hext : Spec.Program.ExtOK ext) (ext' : Ext) (s : Schema) (hs : Proofs.Typed.agreeFrag2 s = true)
-    (v : JV) (hv : Spec.WF.shapeOK (Proofs.CanonM.specCfg mcfg) v = true ∧ Spec.WF.noFloat v = true)
+    (v : JV) (hv : Spec.WF.shapeOK (Proofs.CanonM.specCfg mcfg) v = true)
+    (hF : Spec.WF.floatsRT (Proofs.CanonM.specCfg mcfg) ext v = true)
+    (h128 : Proofs.Typed.has128 s = false ∨ Spec.WF.noFloat v = true)
     (hx : v.hasArrayPayload s.structVariantNames = false)
     (hd : mcfg.limitOff = true ∨ Spec.WF.depthJV v ≤ 127) :
     ∃ bufs, Model.Ser.serCompact ext (Model.Ser.ofValue v) = .ok bufs ∧
       (match fromValue { po := mcfg.po, fr := mcfg.fr, ap := false } ext' s v with
        | .ok t => Model.Typed.deTypedTop { cfg := mcfg, src := src } s bufs.flatten = .ok t
        | .error _ => ∀ t, Model.Typed.deTypedTop { cfg := mcfg, src := src } s bufs.flatten ≠ .ok t) := by
-  have hl : Spec.Image.valueLitsOK v = true := SJ.Proofs.RoundTrip.valueLitsOK_of_shapeOK _ v hv.1
+  have hl : Spec.Image.valueLitsOK v = true := SJ.Proofs.RoundTrip.valueLitsOK_of_shapeOK _ v hv
   obtain ⟨⟨bufs, hser, htext⟩, _⟩ := SJ.Props.C03.c03_value ext hext v hl
   refine ⟨bufs, hser, ?_⟩
   rw [htext]
-  have hag := Proofs.Typed.agree_all ext hext (env := { cfg := mcfg, src := src }) rfl
+  have hag := Proofs.Typed.agree_all ext hext (env := { cfg := mcfg, src := src }) rfl hap
     { po := mcfg.po, fr := mcfg.fr, ap := false } rfl ext' s.structVariantNames (Model.Typed.Schema.size s + 1) s (by omega) hs
-    (fun _ h => h) 0 v ⟨Proofs.Typed.shapeW_of_shapeOK _ hap v hv.1, hv.2⟩
+    (fun _ h => h) 0 v (Proofs.Typed.shapeW_of_shapeOK _ hap v hv) hF
     (by rcases hd with h | h
         · exact .inl h
-        · exact .inr (by omega)) hx hv.1 [] 0 (.inl rfl)
+        · exact .inr (by omega)) hx hv h128 [] 0 (.inl rfl)
   simp only [List.append_nil] at hag
   unfold Proofs.Typed.T at hag
   unfold Model.Typed.deTypedTop
@@ -201,6 +210,20 @@ theorem c16_text_agrees_partial (mcfg : Model.Machine.Cfg) (hap : mcfg.ap = fals
         (Spec.Image.render (Spec.Image.imageOfValue ext v)) 0 with
     | ok x r p => exact absurd hde (hag x r p)
     | _ => simp
+
+/-- **the text leg without floats**: no hypothesis about the printer / parser pair, every schema of the fragment (128-bit
+    integer targets included) -/
+theorem c16_text_agrees_nofloat (mcfg : Model.Machine.Cfg) (hap : mcfg.ap = false) (src : Model.Machine.Src)
+    (ext : Spec.Program.Ext) (hext : Spec.Program.ExtOK ext) (ext' : Ext) (s : Schema) (hs : Proofs.Typed.agreeFrag2 s = true)
+    (v : JV) (hv : Spec.WF.shapeOK (Proofs.CanonM.specCfg mcfg) v = true ∧ Spec.WF.noFloat v = true)
+    (hx : v.hasArrayPayload s.structVariantNames = false)
+    (hd : mcfg.limitOff = true ∨ Spec.WF.depthJV v ≤ 127) :
+    ∃ bufs, Model.Ser.serCompact ext (Model.Ser.ofValue v) = .ok bufs ∧
+      (match fromValue { po := mcfg.po, fr := mcfg.fr, ap := false } ext' s v with
+       | .ok t => Model.Typed.deTypedTop { cfg := mcfg, src := src } s bufs.flatten = .ok t
+       | .error _ => ∀ t, Model.Typed.deTypedTop { cfg := mcfg, src := src } s bufs.flatten ≠ .ok t) :=
+  c16_text_agrees_partial mcfg hap src ext hext ext' s hs v hv.1 (SJ.Proofs.RoundTrip.floatsRT_of_noFloat _ ext v hv.2)
+    (.inr hv.2) hx hd
 
 -- `[[1,null],[2,true]]` as `Vec<(u8, Option<bool>)>`: the text leg returns what `from_value` returns; `[256]` fails on both sides
 example : fromValue {} {} (.seq (.tuple [.int .u8, .option .bool]))
@@ -239,6 +262,21 @@ example : (match Model.Typed.deTypedTop {} (.map (.int .u8) .bool) [0x7b, 0x22, 
 example : Proofs.Typed.agreeFrag2 (.enum_ [([0x55], .unit), ([0x56], .tuple [.int .u8, .string])]) = true ∧
     Proofs.Typed.agreeFrag2 (.enum_ [([0x5a], .tuple [])]) = false ∧
     Proofs.Typed.agreeFrag2 (.struct_ [([0x61], .int .u8), ([0x62], .option .string)] true) = true ∧
-    Proofs.Typed.agreeFrag2 (.map (.int .i128) (.seq .any)) = true ∧ Proofs.Typed.agreeFrag2 (.seq .f64) = false := by decide
+    Proofs.Typed.agreeFrag2 (.map (.int .i128) (.seq .any)) = true ∧ Proofs.Typed.agreeFrag2 (.seq .f64) = true ∧
+    Proofs.Typed.agreeFrag2 (.seq .f32) = false := by decide
+
+-- floats: `[1.5,2]` as `Vec<f64>` (an integer into `f64` is cast on both sides); `1.5` into `u8` and into `i128` is refused by
+-- `from_value` and by the text path — by `i128`'s caller (`end()`: trailing characters at byte 2), `scan_integer128` having
+-- accepted the prefix `1`: the case outside `c16_text_agrees_partial`
+example : (match fromValue {} {} (.seq .f64) (.arr [.num (.float 0x3ff8000000000000), .num (.pos 2)]) with
+    | .ok t => t == .seq [.f64 0x3ff8000000000000, .f64 0x4000000000000000] | _ => false) = true := by decide +kernel
+example : (match Model.Typed.deTypedTop {} (.seq .f64) [0x5b, 0x31, 0x2e, 0x35, 0x2c, 0x32, 0x5d] with
+    | .ok t => t == .seq [.f64 0x3ff8000000000000, .f64 0x4000000000000000] | _ => false) = true := by decide +kernel
+example : fromValue {} {} (.int .u8) (.num (.float 0x3ff8000000000000)) = .error () ∧
+    fromValue {} {} (.int .i128) (.num (.float 0x3ff8000000000000)) = .error () := ⟨rfl, rfl⟩
+example : (match Model.Typed.deTypedTop {} (.int .u8) [0x31, 0x2e, 0x35] with | .data (some 3) => true | _ => false) = true ∧
+    (match Model.Typed.deTypedTop {} (.int .i128) [0x31, 0x2e, 0x35] with | .err .TrailingCharacters 2 => true | _ => false) = true := by
+  decide +kernel
+example : Proofs.Typed.has128 (.seq (.tuple [.int .i128, .f64])) = true ∧ Proofs.Typed.has128 (.map (.int .u128) .f64) = false := by decide
 
 end SJ.Props.C16
